@@ -216,6 +216,16 @@ def _mask_for(n, key, frame=5):
     return {"h": frame, "w": frame, "u": idx}
 
 
+def _draw_signals(rng, share):
+    """history: [[slot, signal_scale]...] -- pixel_signals_from is called before the judged read number `slot` (0 = before all)"""
+    if rng.random() >= share:
+        return []
+    out = [[0 if rng.random() < 0.6 else int(rng.integers(0, 4)), float(rng.choice([0.5, 1.0, 2.0]))]]
+    if rng.random() < 0.4:
+        out.append([int(rng.integers(0, 4)), float(rng.choice([0.0, 1.0, 3.0]))])
+    return out
+
+
 def gen_rect(rng, idx, big=False):
     for _ in range(100):
         mask, cells = _random_mask(rng, 7 if big else 5, 4 if big else 3)
@@ -267,7 +277,8 @@ def gen_rect(rng, idx, big=False):
         return {"kind": "rect", "id": idx, "sub": sub, "pos": pos, "my": my, "mx": mx, "mask": mask,
                 "tau": float(TAUS[int(rng.integers(0, len(TAUS)))]), "origin": [float(rng.choice([0.0, 0.0, -3.25, 17.3])), float(rng.choice([0.0, 1.5, -0.7]))],
                 "jseed": int(rng.integers(0, 2**31 - 1)), "via": "mesh" if rng.random() < 0.5 else "direct",
-                "order": [int(x) for x in rng.permutation(4)], "scalar_sub": bool(len(set(sub)) == 1 and rng.random() < 0.5)}
+                "order": [int(x) for x in rng.permutation(4)], "scalar_sub": bool(len(set(sub)) == 1 and rng.random() < 0.5),
+                "signals": _draw_signals(rng, 0.4)}
     raise core.MachineryError("could not draw a rectangular instance")
 
 
@@ -277,7 +288,8 @@ def complete_dumped(inp, key):
     return {"kind": "rect", "id": int(inp.get("id", 0)), "sub": [int(s) for s in inp["sub"]], "pos": [[int(p[0]), int(p[1])] for p in inp["pos"]],
             "my": int(inp["my"]), "mx": int(inp["mx"]), "mask": _mask_for(n, key), "tau": float(TAUS[key % len(TAUS)]),
             "origin": [[0.0, 0.0], [-3.25, 1.5], [17.3, -0.7]][key % 3], "jseed": key % (2**31 - 1), "via": "mesh" if key % 2 else "direct",
-            "order": [int(x) for x in np.random.default_rng(key % 97).permutation(4)], "scalar_sub": bool(len(set(inp["sub"])) == 1 and key % 4 < 2)}
+            "order": [int(x) for x in np.random.default_rng(key % 97).permutation(4)], "scalar_sub": bool(len(set(inp["sub"])) == 1 and key % 4 < 2),
+            "signals": _draw_signals(np.random.default_rng(key), 0.3)}
 
 
 def _draw_plain_vertices(rng):
@@ -393,7 +405,7 @@ def gen_delaunay(rng, idx, fan=False):
         return {"kind": "delaunay", "id": idx, "sub": sub, "pos": pos, "V": [list(v) for v in V], "mask": _mask_for(len(sub), idx * 7919 + L),
                 "tau": float(DEL_TAUS[int(rng.integers(0, len(DEL_TAUS)))]), "origin": [float(oy), float(ox)], "jseed": 0,
                 "via": "mesh" if rng.random() < 0.5 else "direct", "order": [int(x) for x in rng.permutation(4)],
-                "scalar_sub": bool(len(set(sub)) == 1 and rng.random() < 0.5)}
+                "scalar_sub": bool(len(set(sub)) == 1 and rng.random() < 0.5), "signals": _draw_signals(rng, 0.6)}
     raise core.MachineryError("could not draw a Delaunay instance")
 
 
@@ -429,21 +441,24 @@ def build_mapper(inst):
     if inst["kind"] == "rect":
         pos = pos + np.random.default_rng(inst["jseed"]).uniform(-JIT, JIT, size=pos.shape)
     grid = aa.Grid2DIrregular(off + tau * pos)
+    # a non-constant, strictly positive adapt image (what pixel_signals_from reads); never part of the judged values
+    npx = len(sub)
+    adapt = aa.Array2D(values=0.3 + np.abs(np.sin(1.0 + 1.7 * np.arange(npx) + (inst["id"] % 13))) * (1.0 + inst["id"] % 3), mask=mask)
     if inst["kind"] == "rect":
         shape = (inst["my"], inst["mx"])
         if inst["via"] == "mesh":
-            mg = aa.mesh.Rectangular(shape=shape).mapper_grids_from(mask=mask, source_plane_data_grid=grid, border_relocator=None)
+            mg = aa.mesh.Rectangular(shape=shape).mapper_grids_from(mask=mask, source_plane_data_grid=grid, border_relocator=None, adapt_data=adapt)
             return aa.Mapper(mapper_grids=mg, over_sampler=over, regularization=None)
         mesh = aa.Mesh2DRectangular.overlay_grid(shape_native=shape, grid=grid)
-        mg = aa.MapperGrids(mask=mask, source_plane_data_grid=grid, source_plane_mesh_grid=mesh, image_plane_mesh_grid=None, adapt_data=None)
+        mg = aa.MapperGrids(mask=mask, source_plane_data_grid=grid, source_plane_mesh_grid=mesh, image_plane_mesh_grid=None, adapt_data=adapt)
         return aa.MapperRectangular(mapper_grids=mg, over_sampler=over, border_relocator=None, regularization=None)
     verts = off + tau * np.array(inst["V"], dtype=float)
     if inst["via"] == "mesh":
         mg = aa.mesh.Delaunay().mapper_grids_from(mask=mask, source_plane_data_grid=grid, border_relocator=None,
-                                                  source_plane_mesh_grid=aa.Grid2DIrregular(verts))
+                                                  source_plane_mesh_grid=aa.Grid2DIrregular(verts), adapt_data=adapt)
         return aa.Mapper(mapper_grids=mg, over_sampler=over, regularization=None)
     mesh = aa.Mesh2DDelaunay(values=verts)
-    mg = aa.MapperGrids(mask=mask, source_plane_data_grid=grid, source_plane_mesh_grid=mesh, image_plane_mesh_grid=None, adapt_data=None)
+    mg = aa.MapperGrids(mask=mask, source_plane_data_grid=grid, source_plane_mesh_grid=mesh, image_plane_mesh_grid=None, adapt_data=adapt)
     return aa.MapperDelaunay(mapper_grids=mg, over_sampler=over, border_relocator=None, regularization=None)
 
 
@@ -463,7 +478,16 @@ def record_of(inst):
     mp = build_mapper(inst)
     reads = {}
     names = ["psw", "M", "uniq", "nbr"]
-    for k in inst.get("order", [0, 1, 2, 3]):
+    signals = {}
+    for slot, scale in inst.get("signals", []):
+        signals.setdefault(int(slot), []).append(float(scale))
+    for step, k in enumerate(inst.get("order", [0, 1, 2, 3])):
+        # the pixel signals of the adaptive schemes are another read of the same mapper: evaluated before / between the
+        # judged reads they must leave them as they are
+        for scale in signals.get(step, []):
+            sig = np.asarray(mp.pixel_signals_from(signal_scale=scale))
+            if sig.shape != (mp.pixels,) or not np.all(np.isfinite(sig)):
+                raise RuntimeError(f"pixel_signals_from(signal_scale={scale}) returned shape {sig.shape} / non-finite values")
         nm = names[k]
         if nm == "psw":
             reads[nm] = mp.pix_sub_weights
